@@ -144,15 +144,14 @@ example : sliceWrap [((0 : Int), 'a'), (6 * 3600000000, 'b'), (18 * 3600000000, 
 /-! ### stitching a list of series at increasing upper bounds -/
 
 /-- the hypotheses under which the property speaks about stitching: as many series as bounds (at least two),
-    proper series, bounds in non-decreasing order -/
+    bounds in non-decreasing order -/
 structure Stitchable (dfs : List TS) (ub : List Int) : Prop where
   len : dfs.length = ub.length
   two : 2 ≤ ub.length
-  sorted : ∀ s ∈ dfs, s.Sorted
   inc : nonDecreasing ub = true
 
 example : Stitchable [[(0, some 1), (5, some 2)], [], [(1, some 7), (9, none)]] [4, 6, 10] :=
-  ⟨rfl, by decide, by decide, rfl⟩
+  ⟨rfl, by decide, rfl⟩
 
 /-- the stitched frame is the concatenation of the pieces `pieces dfs ub n l u`: series `i` (with `n > 1`: the
     series `i .. i+n-1` side by side) cut to `(ub[i-1], ub[i]]` (the brackets as given), missing columns NaN -/
@@ -257,25 +256,27 @@ theorem stitch_column (dfs : List TS) (i j n w : Nat) (t : Int) (hj : j < n) (hi
   simp [List.getElem?_take, hj, List.getElem?_drop, hij]
 
 /-- **stitch_once**: with brackets that are not closed on both sides (in particular the default `'(]'`) the stitched
-    index is strictly increasing: every timestamp is covered at most once, in order -/
-theorem stitch_once (dfs : List TS) (ub : List Int) (h : Stitchable dfs ub) (oc : Option (List Char)) (n : Nat) (l u : Bool)
-    (hb : brackets oc = .ok (l, u)) (hlu : ¬ (l = true ∧ u = true)) (F : Frame)
+    index is strictly increasing: every timestamp is covered at most once, in order.  General form: whenever the
+    frames that are cut have strictly increasing indexes. -/
+theorem stitch_once_of (dfs : List TS) (ub : List Int) (h : Stitchable dfs ub) (oc : Option (List Char)) (n : Nat) (l u : Bool)
+    (hb : brackets oc = .ok (l, u)) (hlu : ¬ (l = true ∧ u = true))
+    (hrows : ∀ f ∈ framesOf dfs n, f.rows.Pairwise (fun a b => a.1 < b.1)) (F : Frame)
     (hF : stitch dfs Option.none (some ub) oc n = .ok (some F)) :
     F.rows.Pairwise (fun a b => a.1 < b.1) := by
-  obtain ⟨F', hF', hrows⟩ := stitch_eq dfs ub h oc n l u hb
+  obtain ⟨F', hF', hrows'⟩ := stitch_eq dfs ub h oc n l u hb
   rw [hF] at hF'; cases hF'
   have hne : ub ≠ [] := by intro h0; have := h.two; simp [h0] at this
   have hpl := pieces_length dfs ub n l u h.len hne
   have hfl := framesOf_length dfs n
   have hlen := h.len
   have hub := nonDecreasing_pairwise ub h.inc
-  rw [hrows, List.pairwise_flatMap]
+  rw [hrows', List.pairwise_flatMap]
   constructor
   · intro f hf
     obtain ⟨i, hi, rfl⟩ := List.mem_iff_getElem.mp hf
     rw [pieces_getElem dfs ub n l u h.len i hi (by omega) (by omega)]
     simp only [List.pairwise_map]
-    exact (framesOf_rows_sorted dfs n h.sorted _ (List.getElem_mem _)).sublist List.filter_sublist
+    exact (hrows _ (List.getElem_mem _)).sublist List.filter_sublist
   · rw [List.pairwise_iff_getElem]
     intro i j hi hj hij x hx y hy
     rw [pieces_getElem dfs ub n l u h.len i hi (by omega) (by omega)] at hx
@@ -296,6 +297,13 @@ theorem stitch_once (dfs : List TS) (ub : List Int) (h : Stitchable dfs ub) (oc 
     show rx.1 < ry.1
     cases l <;> cases u <;> simp at hxu' hyl'' hlu <;> omega
 
+theorem stitch_once (dfs : List TS) (ub : List Int) (h : Stitchable dfs ub) (hs : ∀ s ∈ dfs, s.Sorted)
+    (oc : Option (List Char)) (n : Nat) (l u : Bool)
+    (hb : brackets oc = .ok (l, u)) (hlu : ¬ (l = true ∧ u = true)) (F : Frame)
+    (hF : stitch dfs Option.none (some ub) oc n = .ok (some F)) :
+    F.rows.Pairwise (fun a b => a.1 < b.1) :=
+  stitch_once_of dfs ub h oc n l u hb hlu (framesOf_rows_sorted dfs n hs) F hF
+
 /-- bounds given in decreasing order (with the series in the matching order) stitch to the same frame -/
 theorem stitch_decreasing (dfs : List TS) (ub : List Int) (oc : Option (List Char)) (n : Nat)
     (h1 : nonDecreasing ub = false) (h2 : nonDecreasing ub.reverse = true) :
@@ -304,12 +312,9 @@ theorem stitch_decreasing (dfs : List TS) (ub : List Int) (oc : Option (List Cha
 
 /-! ### df_unslice -/
 
-/-- **unslice_restitch (partial)**: the first half of the inverse - cutting the stitched frame again at the bounds
-    with `'(]'`, as `df_unslice` does, returns exactly the piece each interval was assembled from (rows, values,
-    NaN padding).  NOT proved: that handing column `j` of piece `i` to bound `i+j`, dropping NaN rows and stitching
-    again reproduces the frame; that half is checked on the model by the `#guard`s below and on the implementation
-    by the round-trip cases of the correspondence check and by `laws`. -/
-theorem unslice_slices_partial (dfs : List TS) (ub : List Int) (h : Stitchable dfs ub) (n : Nat) (F : Frame)
+/-- the first half of the inverse - cutting the stitched frame again at the bounds with `'(]'`, as `df_unslice` does,
+    returns exactly the piece each interval was assembled from (rows, values, NaN padding) -/
+theorem unslice_slices (dfs : List TS) (ub : List Int) (h : Stitchable dfs ub) (n : Nat) (F : Frame)
     (hF : stitch dfs Option.none (some ub) (some ['(', ']']) n = .ok (some F)) (i : Nat) (hi : i < ub.length) :
     sliceWrap F.rows (loBound ub i) (.date ub[i]) (some ['(', ']']) =
       .ok ((pieces dfs ub n false true)[i]'(by
